@@ -275,12 +275,16 @@ pub fn oracle_with_states(block: &Block) -> (RunResult, Vec<Option<StateSummary>
         let p = precompile.to_alloy();
         precompiles.apply_precompile(address, move |_| Some(p));
     }
-    let evm = Context::mainnet()
+    let mut evm = Context::mainnet()
         .with_db(db)
         .with_cfg(block.cfg())
         .with_block(block.env.clone())
         .build_mainnet_with_inspector(NoOpInspector {})
         .with_precompiles(precompiles);
+    // CREATE / CREATE2 of the oracle consult the decision table of the Lean model
+    // (`Guard.effective`, loaded from gmodel); everything else is stock revm.
+    oracle_guard::ENABLED.with(|e| e.set(block.safety.forbid_delegated_create));
+    evm.instruction = oracle_guard::instructions(spec);
     let mut evm = EthEvm::new(evm, false);
     let mut outcomes = Vec::new();
     let mut status = Ok(());
@@ -335,6 +339,87 @@ pub fn oracle_with_states(block: &Block) -> (RunResult, Vec<Option<StateSummary>
     evm.db_mut().merge_transitions(BundleRetention::Reverts);
     let bundle = evm.db_mut().take_bundle();
     (RunResult { outcomes, status, bundle }, states)
+}
+
+/// The delegated-CREATE rule written down independently, from the property statement, on top of
+/// stock revm: CREATE / CREATE2 executed in the context of an account whose code is an EIP-7702
+/// delegation designator (`0xef0100 || address`) halt as not-activated; everything else is the
+/// stock instruction.
+pub mod oracle_guard {
+    use revm::{
+        bytecode::opcode::{CREATE, CREATE2},
+        handler::instructions::EthInstructions,
+        interpreter::{
+            Host, Instruction, InstructionContext, InstructionExecResult, InstructionResult,
+            instructions::contract,
+            interpreter::EthInterpreter,
+            interpreter_types::{InputsTr, InterpreterTypes, RuntimeFlag},
+        },
+    };
+    use revm_primitives::hardfork::SpecId;
+    use std::{cell::Cell, sync::OnceLock};
+
+    thread_local! {
+        /// the block's `forbid_delegated_create` switch (the oracle runs on the calling thread)
+        pub static ENABLED: Cell<bool> = const { Cell::new(false) };
+    }
+    /// `Guard.effective` as a table indexed by (enabled, prague, static, create2, petersburg,
+    /// delegated); values 0 static violation, 1 not activated, 2 stock create.
+    pub static TABLE: OnceLock<[u8; 64]> = OnceLock::new();
+    pub static GMODEL: OnceLock<String> = OnceLock::new();
+
+    fn table() -> &'static [u8; 64] {
+        TABLE.get_or_init(|| {
+            let path = GMODEL.get().cloned().unwrap_or_else(|| "/verif/lean/.lake/build/bin/gmodel".to_owned());
+            let out = crate::lean::run_gmodel(&path, "guard-table\nend\n").expect("gmodel guard-table");
+            let mut t = [255u8; 64];
+            for row in out.first().map(|l| l.split(' ').collect::<Vec<_>>()).unwrap_or_default() {
+                if let Some((bits, v)) = row.split_once('=') {
+                    let idx = usize::from_str_radix(bits, 2).expect("guard-table row");
+                    t[idx] = v.parse().expect("guard-table value");
+                }
+            }
+            assert!(t.iter().all(|v| *v <= 2), "incomplete guard table from the Lean model");
+            t
+        })
+    }
+
+    pub fn instructions<CTX: Host>(spec: SpecId) -> EthInstructions<EthInterpreter, CTX> {
+        let mut t = EthInstructions::new_mainnet_with_spec(spec);
+        t.insert_instruction(CREATE, Instruction::new(create::<false, _, _>), 0);
+        t.insert_instruction(CREATE2, Instruction::new(create::<true, _, _>), 0);
+        t
+    }
+
+    fn create<const IS_CREATE2: bool, WIRE: InterpreterTypes, H: Host + ?Sized>(
+        context: InstructionContext<'_, H, WIRE>,
+    ) -> InstructionExecResult {
+        let spec = context.interpreter.runtime_flag.spec_id();
+        let is_static = context.interpreter.runtime_flag.is_static();
+        // does the account in whose context this frame runs carry `0xef0100 || address`?
+        let mut delegated = false;
+        if !is_static {
+            let me = context.interpreter.input.target_address();
+            if let Some(code) = context.host.load_account_code(me) {
+                let bytes = &code.data;
+                delegated = bytes.len() == 23 && bytes[0] == 0xef && bytes[1] == 0x01 && bytes[2] == 0x00;
+            }
+        }
+        let bits = [
+            ENABLED.with(Cell::get),
+            spec.is_enabled_in(SpecId::PRAGUE),
+            is_static,
+            IS_CREATE2,
+            spec.is_enabled_in(SpecId::PETERSBURG),
+            delegated,
+        ];
+        let idx = bits.iter().fold(0usize, |acc, b| acc * 2 + *b as usize);
+        match table()[idx] {
+            0 => Err(InstructionResult::StateChangeDuringStaticCall),
+            1 => Err(InstructionResult::NotActivated),
+            _ => contract::create::<IS_CREATE2, WIRE, H>(context),
+        }
+    }
 }
 
 /// Commit events observed during one grevm run: `(txid, result rendering, state summary, deferred)`.
@@ -597,4 +682,121 @@ pub fn outcome_kind(o: &TxExecutionOutcome) -> &'static str {
         TxExecutionOutcome::Executed(ExecutionResult::Halt { .. }) => "halt",
         TxExecutionOutcome::Skipped(_) => "skipped",
     }
+}
+
+// ------------------------------------------------------------------------------------------------
+// Reserve policy (C13): checks of a policy-on result that need no policy-aware oracle
+// ------------------------------------------------------------------------------------------------
+
+fn max_cost(tx: &TxEnv) -> U256 {
+    revm::context_interface::Transaction::max_balance_spending(tx).unwrap_or(U256::MAX)
+}
+
+fn field<'a>(summary: &'a str, key: &str) -> Option<&'a str> {
+    let at = summary.find(key)? + key.len();
+    summary[at..].split(' ').next()
+}
+
+/// `reference` is the result of running `block` with the balance reserve enabled. Checks
+/// (1) fundability: a sender whose block-start balance covers the maximum cost of all its
+///     transactions is never skipped for lack of funds;
+/// (2) against stock revm with the policy off, up to and including the first transaction whose
+///     outcome differs: an agreeing transaction must not have left a delegated account (debited by
+///     somebody else's transaction) below the cost of its later transactions; the first differing
+///     transaction must be a top-level revert with empty output, and some delegated account must
+///     have ended below the cost of its later transactions in the policy-off execution.
+pub fn reserve_checks(block: &Block, reference: &RunResult) -> Option<String> {
+    let n = block.txs.len();
+    let cost_after = |i: usize, a: Address| -> U256 {
+        block.txs.iter().enumerate().filter(|(j, t)| *j > i && t.caller == a).fold(U256::ZERO, |acc, (_, t)| acc.saturating_add(max_cost(t)))
+    };
+    // (1)
+    let callers: std::collections::BTreeSet<Address> = block.txs.iter().map(|t| t.caller).collect();
+    for a in &callers {
+        let start = block.db.accounts.get(a).map_or(U256::ZERO, |x| x.info.balance);
+        let total = block.txs.iter().filter(|t| t.caller == *a).fold(U256::ZERO, |acc, t| acc.saturating_add(max_cost(t)));
+        if start >= total {
+            for (i, t) in block.txs.iter().enumerate() {
+                if t.caller == *a {
+                    if let Some(TxExecutionOutcome::Skipped(grevm::InvalidTransaction::LackOfFundForMaxFee { fee, balance })) = reference.outcomes.get(i) {
+                        return Some(format!("fundability: account {a:#x} held {start} >= {total} (maximum cost of all its transactions) at block start, yet its transaction {i} was skipped for lack of funds (fee {fee}, balance {balance})"));
+                    }
+                }
+            }
+        }
+    }
+    // (2)
+    let mut off_block = block.clone();
+    off_block.safety.reserve_delegated_balance = false;
+    let (off, off_states) = oracle_with_states(&off_block);
+    let mut candidates: std::collections::BTreeSet<Address> = block
+        .db
+        .accounts
+        .iter()
+        .filter(|(_, acc)| block.db.codes.get(&acc.info.code_hash).is_some_and(|c| c.is_eip7702()))
+        .map(|(a, _)| *a)
+        .collect();
+    for t in &block.txs {
+        for auth in &t.authorization_list {
+            if let revm_context::either::Either::Right(r) = auth {
+                if let Some(a) = r.authority() {
+                    candidates.insert(a);
+                }
+            }
+        }
+    }
+    let mut bal: BTreeMap<Address, U256> = BTreeMap::new();
+    let mut delegated: BTreeMap<Address, bool> = BTreeMap::new();
+    for a in &candidates {
+        let acc = block.db.accounts.get(a);
+        bal.insert(*a, acc.map_or(U256::ZERO, |x| x.info.balance));
+        delegated.insert(*a, acc.is_some_and(|x| x.info.code_hash != KECCAK_EMPTY));
+    }
+    for i in 0..n.min(reference.outcomes.len()).min(off.outcomes.len()) {
+        let summary = off_states.get(i).and_then(|s| s.as_ref());
+        let mut post = bal.clone();
+        let mut post_delegated = delegated.clone();
+        if let Some(summary) = summary {
+            for a in &candidates {
+                if let Some(s) = summary.get(a) {
+                    if let Some(b) = field(s, "bal=").and_then(|b| b.parse::<U256>().ok()) {
+                        post.insert(*a, b);
+                    }
+                    if let Some(c) = field(s, "code=").and_then(|c| c.parse::<B256>().ok()) {
+                        post_delegated.insert(*a, c != KECCAK_EMPTY);
+                    }
+                }
+            }
+        }
+        let agree = reference.outcomes[i] == off.outcomes[i];
+        if agree {
+            for a in &candidates {
+                let fc = cost_after(i, *a);
+                if delegated[a] && post_delegated[a] && block.txs[i].caller != *a && post[a] < bal[a] && fc > post[a] {
+                    return Some(format!(
+                        "transaction {i} (sent by {:#x}) lowered the delegated account {a:#x} from {} to {}, below the cost {fc} of its later transactions, but was not turned into a revert (outcome equals the policy-off outcome {:?})",
+                        block.txs[i].caller, bal[a], post[a], reference.outcomes[i]
+                    ));
+                }
+            }
+        } else {
+            match &reference.outcomes[i] {
+                TxExecutionOutcome::Executed(ExecutionResult::Revert { output, .. }) if output.is_empty() => {}
+                other => {
+                    return Some(format!("with the reserve enabled transaction {i} differs from stock revm ({:?}) but is not a top-level revert with empty output: {other:?}", off.outcomes[i]));
+                }
+            }
+            let justified = candidates.iter().any(|a| (delegated[a] || post_delegated[a]) && cost_after(i, *a) > post[a]);
+            if !justified {
+                return Some(format!(
+                    "transaction {i} was turned into a revert, but in the policy-off execution no delegated account ends below the cost of its later transactions (balances after: {:?})",
+                    candidates.iter().map(|a| (format!("{a:#x}"), post[a], cost_after(i, *a))).collect::<Vec<_>>()
+                ));
+            }
+            return None;
+        }
+        bal = post;
+        delegated = post_delegated;
+    }
+    None
 }
